@@ -176,8 +176,25 @@ async fn server_side_peer(mut p: RawPeer, sc: ShutdownScenario, ctl: ConnCtlRef,
         rep.borrow_mut().final_goaway = Some((g.0, g.1));
         if sc.open_after {
             let sid = p.alloc_sid();
-            p.open_request(sid, "GET", "/after", &[f("x-vp-id", "5")], true).await;
+            // a stream that crossed the final GOAWAY on the wire: its frames are to be ignored, and whatever the
+            // client legally sends for it afterwards (it may cancel it, RFC 9113 6.8) is no error either
+            let follow = sc.seed / 7 % 4;
+            p.open_request(sid, if follow == 2 { "POST" } else { "GET" }, "/after", &[f("x-vp-id", "5")], follow != 2).await;
             rep.borrow_mut().after = Some(sid);
+            let mut b = Vec::new();
+            match follow {
+                1 => rst(sid, 8, &mut b),
+                2 => {
+                    data(sid, b"late", false, None, &mut b);
+                    p.sh.conn_window -= 4;
+                    rst(sid, 8, &mut b);
+                }
+                3 => window_update(sid, 100, &mut b),
+                _ => {}
+            }
+            if !b.is_empty() {
+                p.send(&b).await;
+            }
             p.settle_world(10_000).await;
         }
     }
